@@ -271,6 +271,21 @@ def tlc(
     return res
 
 
+def apalache(module: str, inv: str, *, length: int = 0, timeout: int = 600, extra: list[str] | None = None) -> tuple[bool, str, float]:
+    """symbolic check of an invariant with Apalache (unbounded integers); returns (no error found, output tail, wall)"""
+    d = newdir("apa-" + module)
+    shutil.copy(SPEC / f"{module}.tla", d / f"{module}.tla")
+    cmd = ["apalache-mc", "check", f"--inv={inv}", f"--length={length}", f"--out-dir={d / 'out'}"] + (extra or []) + [f"{module}.tla"]
+    t0 = time.time()
+    try:
+        p = subprocess.run(cmd, cwd=d, capture_output=True, text=True, timeout=timeout)
+        out = p.stdout + p.stderr
+    except subprocess.TimeoutExpired:
+        out = "APALACHE-TIMEOUT"
+    shutil.rmtree(d / "out", ignore_errors=True)
+    return ("EXITCODE: OK" in out and "no error" in out), "\n".join(out.splitlines()[-12:]), time.time() - t0
+
+
 def must_pass(res: TlcResult, what: str) -> TlcResult:
     """An exhaustive model-checking run that is expected to find no error."""
     if not res.ok:
